@@ -57,6 +57,8 @@ use crate::support::sup::*;
 use core::cmp::Ordering;
 '''
 
+FEATURES = '#![cfg_attr(kani, feature(formatting_options, pattern))]\n#![cfg_attr(stubcheck, feature(pattern))]\n'
+
 CARGO_TOML = '''[package]
 name = "{name}"
 version = "0.0.0"
@@ -136,7 +138,7 @@ def write_crate(d, modules, crate_name, features=None, lib_attrs='', extra_files
         f.write(CARGO_TOML.format(name=crate_name, repo=REPO, features=feat))
     shutil.copy(os.path.join(REPO, 'Cargo.lock'), os.path.join(d, 'Cargo.lock'))
     shutil.copy(os.path.join(VERIF, 'vk', 'support.rs'), os.path.join(d, 'src', 'support.rs'))
-    lib = lib_attrs + '#![allow(dead_code, unused_imports, unused_macros)]\npub mod support;\n'
+    lib = FEATURES + lib_attrs + '#![allow(dead_code, unused_imports, unused_macros)]\npub mod support;\n'
     disp = 'pub fn dispatch(name: &str) {\n    match name {\n'
     for m in modules:
         lib += f'pub mod {m.name};\n'
